@@ -418,6 +418,8 @@ func c06(c *Ctx) (*report.Result, error) {
 	checkNoSwallowedErrors(c, res, "O6.9", []string{"proxy/admin_stream_transfer.go", "proxy/adminservice.go"})
 	res.RuleDoc["O6.10"] = "relay loops pass every message on: in every loop that takes messages from a stream or channel and forwards them, no path from the take to the next take avoids every stream Send / channel send / Deliver*ToShardOwner (a forwarding loop that runs zero times, the wrong-kind edges of a type assertion and a return that ends the stream are not bypasses; the ack aggregator sendAck is the reviewed exception)"
 	checkRelayLoops(c, res, "O6.10", []string{"proxy/admin_stream_transfer.go"}, 3)
+	res.RuleDoc["O6.11"] = "the stream handler's bookkeeping cannot refuse a well-formed stream: ReportStreamValue, called before the relay starts, reaches streamActive[idx] only where idx < len(streamActive) is established - the growth test is against the indexed slice's length and the edge that skips the growth implies idx < len (same analysis as O20.9); an off-by-one there panics for the shard id equal to the table's length and that shard's stream is never relayed"
+	checkObserverIndexGuard(c, res, "O6.11")
 	return res, nil
 }
 
